@@ -83,7 +83,7 @@ def scenario(name, tmo):
   """returns run_fn(policy) -> (sched, result dict)"""
   def run(policy):
     from vf import sched, usbfake
-    s = sched.Sched(policy=policy, max_steps=20000)
+    s = sched.Sched(policy=policy, max_steps=20000, early_expiry=0.02)   # the 10 ms queue poll may expire early
     log = []
     box = dict(log=log)
 
@@ -135,6 +135,19 @@ def scenario(name, tmo):
                threading.Thread(target=reader, args=(s1, 'Rb', 1), name='Rb'),
                threading.Thread(target=writer, args=(s2, 'W', 'q'), name='W')]
         box['expect'] = None
+      elif name == 'rr3':        # two streams: B's first message is read (and queued) by A's reader,
+        s1 = conn.open_stream('shell:1', timeout_ms=5000)   # B's second one comes straight off the wire
+        s2 = conn.open_stream('shell:2', timeout_ms=5000)
+        dev.push(2, 'p')
+        dev.push(1, 'x')
+        dev.push(2, 'q')
+
+        def reader_twice(st, tag):
+          reader(st, tag + '.1')
+          reader(st, tag + '.2')
+        ths = [threading.Thread(target=reader, args=(s1, 'RA'), name='RA'),
+               threading.Thread(target=reader_twice, args=(s2, 'RB'), name='RB')]
+        box['expect'] = None
       for t in ths:
         t.start()
       for t in ths:
@@ -162,11 +175,17 @@ def judge(name, tmo, box):
     got = ''.join(sorted(''.join(e[2] for e in box['log'] if e[1] == 'read')))
     if got not in ('', 'a', 'ab'):
       bad.append('rrw: the two readers of one stream obtained %r, the device wrote a then b' % got)
+  if name == 'rr3' and not bad:
+    rb = ''.join(e[2] for e in sorted(box['log']) if e[0].startswith('RB') and e[1] == 'read')
+    ra = ''.join(e[2] for e in box['log'] if e[0] == 'RA' and e[1] == 'read')
+    if rb != 'pq' or ra != 'x':
+      bad.append('rr3: the reader of a stream obtained %r (the device wrote p then q to it), the other reader %r '
+                 '(the device wrote x)' % (rb, ra))
   dev = box.get('dev')
   if dev is not None:
     wr = sum(1 for c in dev.host if c[0] == 'WRTE')
     acks = collections.Counter((c[1], c[2]) for c in dev.host if c[0] == 'OKAY')
-    sent = {'rw1': {1: 1}, 'rr2': {1: 1, 2: 1}, 'rrw': {1: 2}}[name]
+    sent = {'rw1': {1: 1}, 'rr2': {1: 1, 2: 1}, 'rrw': {1: 2}, 'rr3': {1: 1, 2: 2}}[name]
     for n, cnt in sent.items():
       lid, rid = dev.lids[n]
       if acks.get((lid, rid), 0) != cnt:
@@ -206,6 +225,13 @@ def design(chk):
       raise tlc.TLCError('sensitivity: ReadUntil_%s should deadlock' % cfgname)
   chk.cov['model_sensitivity'] = ('ReadUntil.tla with the protocol as originally pinned (notify before releasing the '
                                   'reader lock) and with the half repair deadlocks in TLC; the full repair terminates')
+  res = tlc.must_pass(tlc.run('ReadForStream_mc', 'ReadForStream_mc.cfg', workers=4), 'ReadForStream design check')
+  chk.add_tlc('ReadForStream: 3 streams x 2 messages, in-order delivery + every message delivered', res)
+  neg = tlc.run('ReadForStream_mc', 'ReadForStream_norecheck.cfg', workers=1)
+  if 'InOrder' not in neg.invariant_violated:
+    raise tlc.TLCError('sensitivity: ReadForStream without the queue re-check should violate InOrder')
+  chk.cov['model_sensitivity_2'] = ('ReadForStream.tla without the second look at the queue under the reader lock '
+                                    'violates InOrder')
   cfg = muxlib.CFG % dict(limit=4, streams=2, ops=4, wire=2, dev=2, illegal='"AUTH"',
                           view='VIEW DesignView', emit='CONSTRAINT Constraint')
   res = tlc.must_pass(tlc.run('MCMux', cfg, gen={'MCMux.tla': muxlib.module([('a',), ('a', 'b', 'a')])},
@@ -238,7 +264,7 @@ def emit_replay(chk, pool, limit, ops, wire, dev, dataseqs, illegal='"AUTH"', st
 
 def dfs(chk, pool, bound, maxruns):
   jobs = []
-  for name in ('rw1', 'rr2', 'rrw'):
+  for name in ('rw1', 'rr2', 'rrw', 'rr3'):
     for tmo in (None, 2000):
       jobs.append((name, tmo, bound, (), maxruns))
   outs = pool.map(explore_scenario, jobs)
@@ -251,7 +277,7 @@ def dfs(chk, pool, bound, maxruns):
       chk.violation(sig, det)
     chk.tlc_runs.append(dict(name='dfs %s timeout=%s bound=%d' % (j[0], j[1], bound), schedules=o['n'],
                              outcomes=dict(o['outcomes'])))
-  chk.sample(dict(part='schedules', scenarios=['rw1', 'rr2', 'rrw'], explored=total))
+  chk.sample(dict(part='schedules', scenarios=['rw1', 'rr2', 'rrw', 'rr3'], explored=total))
   chk.log('%d schedules of reader/writer threads explored' % total)
 
 
